@@ -63,6 +63,9 @@ func c08Cases(c *core.Ctx) []c08Case {
 				c08Case{Depth: 2, Defect: "none", Special: "unauthorized-sublayout", Flavour: "summary", DSSE: dsse, RunDir: runDir, wantOK: true},
 				c08Case{Depth: 2, Defect: "none", Special: "plain+sublayout", Flavour: "summary", DSSE: dsse, RunDir: runDir, wantOK: true},
 				c08Case{Depth: 2, Defect: "plain-link-disagrees-with-summary", Special: "plain+sublayout", Flavour: "summary", DSSE: dsse, RunDir: runDir},
+				c08Case{Depth: 2, Defect: "expired", Level: 1, Special: "surplus-sublayout", Flavour: "summary", DSSE: dsse, RunDir: runDir},
+				c08Case{Depth: 2, Defect: "missing-link", Level: 1, Step: "final", Special: "surplus-sublayout", Flavour: "summary", DSSE: dsse, RunDir: runDir},
+				c08Case{Depth: 2, Defect: "none", Special: "surplus-sublayout", Flavour: "summary", DSSE: dsse, RunDir: runDir, wantOK: true},
 				c08Case{Depth: 2, Defect: "none", Special: "twin-sublayouts", Flavour: "summary", DSSE: dsse, RunDir: runDir, wantOK: true},
 				c08Case{Depth: 2, Defect: "missing-link-in-one-twin", Special: "twin-sublayouts", Level: 1, Step: "final", Flavour: "summary", DSSE: dsse, RunDir: runDir},
 				c08Case{Depth: 3, Defect: "missing-link-in-one-twin", Special: "twin-sublayouts", Level: 1, Step: "prep", Flavour: "summary", DSSE: dsse, RunDir: runDir},
@@ -82,7 +85,7 @@ func runC08(c *core.Ctx) {
 	cn := 0
 	for ki, k := range cases {
 		n := reps
-		if k.Special == "twin-sublayouts" {
+		if k.Special == "twin-sublayouts" || k.Special == "surplus-sublayout" {
 			n = c.Pick(12, 40)
 		}
 		for rep := 0; rep < n; rep++ {
@@ -146,6 +149,10 @@ func runC08(c *core.Ctx) {
 			switch k.Special {
 			case "plain+sublayout":
 				levels[0].ExtraPlain, levels[0].ExtraKey = true, fast[len(fast)-2]
+			case "surplus-sublayout":
+				// threshold 1, but two authorized functionaries hand in evidence: an honest plain link
+				// and a sublayout. Every authorized, validly signed piece of evidence is followed.
+				levels[0].ExtraPlain, levels[0].ExtraKey, levels[0].SubThresh = true, fast[len(fast)-2], 1
 			case "twin-sublayouts":
 				p := levels[k.Depth-2]
 				p.TwinSub, p.ExtraKey = true, fast[len(fast)-2]
@@ -264,7 +271,7 @@ func init() {
 	core.Register(&core.Property{
 		ID:    "C08",
 		Level: "exploration",
-		Rule: "nestings of 2 and 3 layouts built bottom-up (each layout: steps prep / sub / final, step sub delegated to a sublayout signed by the functionary's key, links in <step>.<keyid8>/, one inspection with a marker per level); one defect from {sublayout signed by a wrong key, expired, rule violation, failing inspection, threshold not met, missing link, link signed by an unauthorized key, tampered link} at every level x every step; parent rules of the 'true summary' flavour (must hold) and of the 'inner artifact' flavour (must fail); a sublayout offered by an unauthorized functionary next to honest evidence (must not be followed: no sublayout_enter, no marker); threshold-2 step with one plain link + one sublayout (agreeing / disagreeing); threshold-2 step with the same sublayout from two functionaries, a link missing in one directory only (repeated for map order); x 2 wrappers x 2 entry points. Oracle: ground truth by construction + markers + sublayout_enter events + trace automaton. " +
+		Rule: "nestings of 2 and 3 layouts built bottom-up (each layout: steps prep / sub / final, step sub delegated to a sublayout signed by the functionary's key, links in <step>.<keyid8>/, one inspection with a marker per level); one defect from {sublayout signed by a wrong key, expired, rule violation, failing inspection, threshold not met, missing link, link signed by an unauthorized key, tampered link} at every level x every step; parent rules of the 'true summary' flavour (must hold) and of the 'inner artifact' flavour (must fail); a sublayout offered by an unauthorized functionary next to honest evidence (must not be followed: no sublayout_enter, no marker); threshold-2 step with one plain link + one sublayout (agreeing / disagreeing); threshold-1 step with an honest plain link plus a (sound / expired / incomplete) sublayout from a second authorized functionary; threshold-2 step with the same sublayout from two functionaries, a link missing in one directory only (repeated for map order); x 2 wrappers x 2 entry points. Oracle: ground truth by construction + markers + sublayout_enter events + trace automaton. " +
 			"non-trivial = at least one sublayout entered or deliberately not entered; distinct = (depth, defect, level, step, flavour, special, wrapper, entry point)",
 		Assumptions: []string{"sublayouts are signed with keys (the library looks the key up in the parent's keys section); certificate-authorized sublayout signers are not exercised"},
 		Workers:     func(string) int { return 16 },
